@@ -942,7 +942,7 @@ func vC01MidCase(rnd *rand.Rand, r *Resolver, tr *vC01Trace) {
 		tampers = len(vC01F.Tampers)
 	}
 	for i := 0; i < tampers; i++ {
-		tk := []int{0, 1, 1, 2, 3, 4, 4, 4, 5, 6, 7, 8, 9, 10, 11, 12}[rnd.Intn(16)]
+		tk := []int{0, 1, 1, 2, 3, 4, 4, 4, 5, 6, 7, 8, 9, 10, 11, 12, 13, 13, 13, 13}[rnd.Intn(20)]
 		if vC01F != nil {
 			tk = vC01F.Tampers[i]
 		}
@@ -1078,6 +1078,44 @@ func vC01MidCase(rnd *rand.Rand, r *Resolver, tr *vC01Trace) {
 					kinds = append(kinds, "t:alter-rdata")
 					break
 				}
+			}
+		case 13: // one header field of every RRSIG of the response rewritten (signature octets kept), data altered or not
+			field := rnd.Intn(6)
+			// algorithm numbers the validator does not implement, and implemented ones the zone's keys are not of
+			algs := []uint8{dns.RSAMD5, dns.DSA, dns.ECCGOST, 17, 200, 253, dns.RSASHA256, dns.ECDSAP384SHA384}
+			alg := algs[rnd.Intn(len(algs))]
+			hit := false
+			for _, rr := range append(append([]dns.RR{}, resp.Answer...), resp.Ns...) {
+				sg, ok := rr.(*dns.RRSIG)
+				if !ok {
+					continue
+				}
+				switch field {
+				case 0, 1, 2: // half of the draws: the algorithm octet
+					if sg.Algorithm == alg {
+						sg.Algorithm = dns.RSAMD5
+					} else {
+						sg.Algorithm = alg
+					}
+				case 3:
+					sg.KeyTag++
+				case 4:
+					sg.OrigTtl++
+				case 5:
+					sg.Inception, sg.Expiration = uint32(x.now+3600), uint32(x.now+7200)
+				}
+				hit = true
+			}
+			if hit {
+				if rnd.Intn(2) == 0 {
+					for _, rr := range resp.Answer {
+						if a, ok := rr.(*dns.A); ok && !strings.EqualFold(a.Hdr.Name, "www.elsewhere.") {
+							a.A = []byte{203, 0, 113, 77}
+						}
+					}
+				}
+				genuine = false
+				kinds = append(kinds, []string{"t:sig-alg", "t:sig-alg", "t:sig-alg", "t:sig-keytag", "t:sig-origttl", "t:sig-not-yet-valid"}[field])
 			}
 		case 12: // DNSKEY answer replaced by attacker keys only
 			if z.signed {
